@@ -234,6 +234,7 @@ func runC14(tier string, seed int64) *Outcome {
 	o := &Outcome{Exhaustive: true}
 	secrets := []string{"0123456789abcdef", "a-32-characters-long-secret-0000!", strings.Repeat("ß∂ƒ©-secret-", 6)}
 	idx := 0
+	prevValid, prevSecret := "", ""
 	reps := 1
 	if tier == "thorough" {
 		reps = 6
@@ -273,6 +274,11 @@ func runC14(tier string, seed int64) *Outcome {
 				}
 				r := rand.New(rand.NewSource(seed + int64(idx)))
 				classes := credentialClasses(secret, r)
+				if prevValid != "" && prevSecret != secret {
+					// a token that another server instance of this process (other secret) has accepted before: verification
+					// state must not be shared between instances
+					classes = append(classes, credClass{name: "token-accepted-by-another-instance", token: prevValid, judged: true})
+				}
 				var plist []string
 				for p := range patterns {
 					plist = append(plist, p)
@@ -557,6 +563,9 @@ func runC14(tier string, seed int64) *Outcome {
 				sort.Strings(nj)
 				res.Sample = map[string]any{"secretLen": len(secret), "profiling": profiling, "routes": env.routes, "credentialClasses": len(classes), "borderlineOutcomesNotJudged": nj}
 				// let the jobs end
+				if profiling {
+					prevValid, prevSecret = env.valid, secret // (the next instance has another secret)
+				}
 				drv.DrainAll(env.sys)
 				env.sys.Close()
 			}
@@ -568,7 +577,7 @@ func runC14(tier string, seed int64) *Outcome {
 func init() {
 	register(&Check{
 		ID: "C14", Level: "exploration",
-		Rule:        "exhaustive product over: every route pattern discovered with chi.Walk on the real router (hook H3; the run is invalid if fewer than the six known API routes are found) x methods {GET,POST,PUT,PATCH,DELETE,HEAD,OPTIONS} x ~27 invalid credential classes (none, empty bearer, garbage, 2 / 4 segments, other secret, truncated / bit-flipped signature, payload modified after signing, alg none (3 spellings / signatures), HS384 / HS512 with the right secret, RS256 / ES256 headers, expired, not yet valid, basic auth, the secret itself, random single-character edits of a valid token) x transports {Authorization header, cookie jwt, query ?jwt=} x profiling on/off x 3 secrets (16, 33, 100+ bytes incl. non-ASCII), against the real http.Handler of server.NewServer on a runner that holds a running, a waiting and a finished job with log output (job variables and logs large enough that every authenticated listing / detail / log response exceeds 64 KiB). Requests are built to be effective if accepted (schedule an existing pipeline, cancel the running job, read real logs). Oracle: status 401, body free of planted markers (job ids, pipeline / task names, variable values, log lines), runner state (jobs, flags, pipeline list) unchanged; /debug/* answers 404 with profiling off; positive control with a valid token via header and cookie; every judged invalid request is also repeated directly after the same request was answered for a valid token (header / cookie), so that state kept between requests (caches, sessions) cannot open a route; finally 6 clients with invalid credentials send effective requests while 6 pollers with a valid token are in flight (the decision about one request must not depend on another). Borderline classes (iat in the future, lower-case 'bearer') are sent and their outcome recorded but never judged. A situation is (method, pattern, registered?, credential family, transport, profiling)",
+		Rule:        "exhaustive product over: every route pattern discovered with chi.Walk on the real router (hook H3; the run is invalid if fewer than the six known API routes are found) x methods {GET,POST,PUT,PATCH,DELETE,HEAD,OPTIONS} x ~27 invalid credential classes (none, empty bearer, garbage, 2 / 4 segments, other secret, truncated / bit-flipped signature, payload modified after signing, alg none (3 spellings / signatures), HS384 / HS512 with the right secret, RS256 / ES256 headers, expired, not yet valid, basic auth, the secret itself, random single-character edits of a valid token, a token that another server instance with another secret accepted earlier in this process) x transports {Authorization header, cookie jwt, query ?jwt=} x profiling on/off x 3 secrets (16, 33, 100+ bytes incl. non-ASCII), against the real http.Handler of server.NewServer on a runner that holds a running, a waiting and a finished job with log output (job variables and logs large enough that every authenticated listing / detail / log response exceeds 64 KiB). Requests are built to be effective if accepted (schedule an existing pipeline, cancel the running job, read real logs). Oracle: status 401, body free of planted markers (job ids, pipeline / task names, variable values, log lines), runner state (jobs, flags, pipeline list) unchanged; /debug/* answers 404 with profiling off; positive control with a valid token via header and cookie; every judged invalid request is also repeated directly after the same request was answered for a valid token (header / cookie), so that state kept between requests (caches, sessions) cannot open a route; finally 6 clients with invalid credentials send effective requests while 6 pollers with a valid token are in flight (the decision about one request must not depend on another). Borderline classes (iat in the future, lower-case 'bearer') are sent and their outcome recorded but never judged. A situation is (method, pattern, registered?, credential family, transport, profiling)",
 		Assumptions: []string{"the listener's bind address and TLS are outside the handler and not examined"},
 		Custom:      runC14,
 		MinDistinct: 200,
